@@ -79,15 +79,16 @@ def main():
                     if cscen:
                         corpus_sel = os.path.join(s.dir, "corpus_scen.txt"); open(corpus_sel, "w").write("\n".join(cscen) + "\n")
                 cmds.append("%s 0 100000 %d 0 1" % (h, c.seed))                       # one injector: exhaustive
+                # the long pipelines first (run_pipeline starts at most 2*NCPU at a time)
+                if c.tier == "quick":
+                    cmds += ["%s 2 %d %d %d %d" % (h, ndfs, c.seed, i, NCPU) for i in range(9)]   # two injectors: DFS, partitioned by the first two decisions
+                else:                                                                             # thorough: by the first three (27 subtrees: even load on the cores)
+                    cmds += ["%s 3 %d %d %d %d" % (h, ndfs, c.seed, i, 27) for i in range(27)]
                 cmds += ["%s 1 %d %d %d %d" % (h, nrand, c.seed, i, NCPU) for i in range(NCPU)]   # two injectors: random schedules
                 # START-UP leg: injector A starts together with the daemon (its steps interleave with todo_init's open, the first selects, the start-up
                 # re-arm and the first scan, or finish before the daemon's first step): bounded-exhaustive for one injector, random for two
                 cmds += ["%s 4 %d %d %d %d" % (h, 150 if c.tier == "quick" else 4000, c.seed, i, 27) for i in range(27)]
                 cmds += ["%s 5 %d %d %d %d" % (h, 20 if c.tier == "quick" else 600, c.seed, i, NCPU) for i in range(NCPU)]
-                if c.tier == "quick":
-                    cmds += ["%s 2 %d %d %d %d" % (h, ndfs, c.seed, i, NCPU) for i in range(9)]   # two injectors: DFS, partitioned by the first two decisions
-                else:                                                                             # thorough: by the first three (27 subtrees: even load on the cores)
-                    cmds += ["%s 3 %d %d %d %d" % (h, ndfs, c.seed, i, 27) for i in range(27)]
             outs = run_pipeline(cmds, drv) if cmds else []
             stats, samples, disagree, oracle, errors = parse_driver_output(outs)
             # select-preparation leg: the daemon scenarios of qsend.c with a snapshot of the daemon's globals at every select
